@@ -3,6 +3,7 @@
 // all schedules with <= k preemptions at thread create/start/exit, mutex acquire and join are
 // enumerated and the written files are compared with the single-thread run: byte-identical for the
 // ordered tool, equal to rounding for the unordered one.
+#include <hdf5.h>
 #include <sys/stat.h>
 
 #include <fstream>
@@ -31,7 +32,8 @@ struct Tool {
   bool ordered;
   double tol = 1e-9;  // relative tolerance for unordered tools ("agree to rounding")
 };
-struct Cfg { int tool; int nt; std::string extra; bool ul = false; /* instants after mutex releases are scheduling points too */ };
+struct Cfg { int tool; int nt; std::string extra; bool ul = false; /* instants after mutex releases are scheduling points too */
+             std::string trj = "trj.dump"; /* trajectory file (format) handed to the tool */ };
 
 static std::vector<Tool> tools() {
   return {
@@ -46,7 +48,7 @@ static std::vector<Tool> tools() {
 }
 
 static bool is_input(const std::string &n) {
-  static const char *in[] = {"top.xml", "opt.xml", "trj.dump", "settings_re.xml", "topol_cg.xml", "trj_re.dump", "CG-CG.param.cur", "CG-CG.dist.new", "CG-CG.dist.tgt"};
+  static const char *in[] = {"top.xml", "opt.xml", "trj.dump", "trj.gro", "static.h5", "timedep.h5", "settings_re.xml", "topol_cg.xml", "trj_re.dump", "CG-CG.param.cur", "CG-CG.dist.new", "CG-CG.dist.tgt"};
   for (const char *i : in) if (n == i) return true;
   return n[0] == '.';
 }
@@ -69,7 +71,7 @@ static void write_inputs() {
   const int NM = 4;  // molecules of 2 beads (types A and B)
   {
     std::ofstream f("top.xml");
-    f << "<topology>\n <molecules>\n  <molecule name=\"M\" nmols=\"" << NM << "\" nbeads=\"2\">\n"
+    f << "<topology>\n <h5md_particle_group name=\"atoms\" />\n <molecules>\n  <molecule name=\"M\" nmols=\"" << NM << "\" nbeads=\"2\">\n"
       << "   <bead name=\"A\" type=\"A\" mass=\"1.0\" q=\"0.0\" />\n   <bead name=\"B\" type=\"B\" mass=\"2.0\" q=\"0.0\" />\n"
       << "  </molecule>\n </molecules>\n"
       // a bond inside every molecule: the worker topologies must carry it (and the exclusion it implies) like the master's
@@ -103,6 +105,83 @@ static void write_inputs() {
       }
     }
   }
+}
+
+// The same frames in other trajectory formats (thread-count independence must not depend on the reader):
+// gro (box per frame), H5MD with a static box (frame 0's box) and H5MD with time-dependent box edges.
+static bool h5_write(const std::string &fn, int NM, int FR, bool timedep) {
+  hid_t file = H5Fcreate(fn.c_str(), H5F_ACC_TRUNC, H5P_DEFAULT, H5P_DEFAULT);
+  if (file < 0) return false;
+  auto attr_int = [&](hid_t loc, const char *name, const int *v, hsize_t n) {
+    hid_t sp = H5Screate_simple(1, &n, nullptr);
+    hid_t at = H5Acreate2(loc, name, H5T_NATIVE_INT, sp, H5P_DEFAULT, H5P_DEFAULT);
+    H5Awrite(at, H5T_NATIVE_INT, v);
+    H5Aclose(at); H5Sclose(sp);
+  };
+  hid_t g = H5Gcreate2(file, "h5md", H5P_DEFAULT, H5P_DEFAULT, H5P_DEFAULT);
+  int version[2] = {1, 0};
+  attr_int(g, "version", version, 2);
+  H5Gclose(g);
+  hid_t gp = H5Gcreate2(file, "particles", H5P_DEFAULT, H5P_DEFAULT, H5P_DEFAULT);
+  hid_t ga = H5Gcreate2(gp, "atoms", H5P_DEFAULT, H5P_DEFAULT, H5P_DEFAULT);
+  hid_t gb = H5Gcreate2(ga, "box", H5P_DEFAULT, H5P_DEFAULT, H5P_DEFAULT);
+  int dim = 3;
+  attr_int(gb, "dimension", &dim, 1);
+  auto dset = [&](hid_t loc, const char *name, int rank, const hsize_t *dims, const double *data) {
+    hid_t sp = H5Screate_simple(rank, dims, nullptr);
+    hid_t ds = H5Dcreate2(loc, name, H5T_NATIVE_DOUBLE, sp, H5P_DEFAULT, H5P_DEFAULT, H5P_DEFAULT);
+    herr_t rc = H5Dwrite(ds, H5T_NATIVE_DOUBLE, H5S_ALL, H5S_ALL, H5P_DEFAULT, data);
+    H5Dclose(ds); H5Sclose(sp);
+    return rc >= 0;
+  };
+  bool ok = true;
+  if (timedep) {
+    std::vector<double> e;
+    for (int fr = 0; fr < FR; fr++) for (int k = 0; k < 3; k++) e.push_back(3.0 + 0.1 * fr);
+    hid_t ge = H5Gcreate2(gb, "edges", H5P_DEFAULT, H5P_DEFAULT, H5P_DEFAULT);
+    hsize_t d[2] = {(hsize_t)FR, 3};
+    ok = ok && dset(ge, "value", 2, d, e.data());
+    H5Gclose(ge);
+  } else {
+    double e[3] = {3.0, 3.0, 3.0};
+    hsize_t d[1] = {3};
+    ok = ok && dset(gb, "edges", 1, d, e);
+  }
+  H5Gclose(gb);
+  std::vector<double> pos;
+  for (int fr = 0; fr < FR; fr++)
+    for (int m = 0; m < NM; m++) {
+      double x = (m % 2) * 4.0 + fr * 0.7 + m * 0.3, y = (m / 2) * 5.0 + fr * 0.4, z = m * 1.5 + fr * 1.1;
+      double p[6] = {x, y, z, x + 1.0 + 0.1 * fr, y + 0.5, z + 0.2 * m};
+      for (double v : p) pos.push_back(v / 10.0);  // nm
+    }
+  hid_t gq = H5Gcreate2(ga, "position", H5P_DEFAULT, H5P_DEFAULT, H5P_DEFAULT);
+  hsize_t d3[3] = {(hsize_t)FR, (hsize_t)(2 * NM), 3};
+  ok = ok && dset(gq, "value", 3, d3, pos.data());
+  H5Gclose(gq); H5Gclose(ga); H5Gclose(gp);
+  H5Fclose(file);
+  return ok;
+}
+static bool write_other_formats() {
+  const int NM = 4, FR = 4;
+  {
+    std::ofstream f("trj.gro");
+    for (int fr = 0; fr < FR; fr++) {
+      f << "frame t= " << fr << ".0\n" << 2 * NM << "\n";
+      for (int m = 0; m < NM; m++) {
+        double x = (m % 2) * 4.0 + fr * 0.7 + m * 0.3, y = (m / 2) * 5.0 + fr * 0.4, z = m * 1.5 + fr * 1.1;
+        char b[256];
+        snprintf(b, sizeof b, "%5d%-5s%5s%5d%8.3f%8.3f%8.3f\n%5d%-5s%5s%5d%8.3f%8.3f%8.3f\n", m + 1, "M", "A", 2 * m + 1, x / 10, y / 10, z / 10, m + 1, "M", "B",
+                 2 * m + 2, (x + 1.0 + 0.1 * fr) / 10, (y + 0.5) / 10, (z + 0.2 * m) / 10);
+        f << b;
+      }
+      char b[128];
+      double L = 3.0 + 0.1 * fr;
+      snprintf(b, sizeof b, "%10.5f%10.5f%10.5f\n", L, L, L);
+      f << b;
+    }
+  }
+  return h5_write("static.h5", NM, FR, false) && h5_write("timedep.h5", NM, FR, true);
 }
 
 static void copy_file(const std::string &from, const std::string &to) {
@@ -151,9 +230,10 @@ static std::vector<std::string> split_ws(const std::string &s) {
   return v;
 }
 
-static void run_tool(const Tool &t, int nt, const std::string &extra, bool preload, const std::string &shmpath, const std::vector<int> &choices, int horizon, bool ul = false) {
+static void run_tool(const Tool &t, int nt, const std::string &extra, bool preload, const std::string &shmpath, const std::vector<int> &choices, int horizon, bool ul = false,
+                     const std::string &trj = "trj.dump") {
   std::vector<std::string> av{t.exe};
-  for (auto &a : t.args) av.push_back(a);
+  for (auto &a : t.args) av.push_back(a == "trj.dump" ? trj : a);
   av.push_back("--nt");
   av.push_back(std::to_string(nt));
   for (auto &a : split_ws(extra)) av.push_back(a);
@@ -201,6 +281,7 @@ int main(int argc, char **argv) {
   std::string shmdir = mkdtemp(tmpl) ? tmpl : ".";
   std::string shmpath = shmdir + "/ctl.bin";
   write_inputs();
+  if (!write_other_formats()) { fprintf(stderr, "MACHINERY-ERROR cannot write the gro/H5MD trajectories\n"); return 2; }
   if (!write_reupdate_inputs()) { fprintf(stderr, "MACHINERY-ERROR cannot read the spce reference inputs for csg_reupdate\n"); return 2; }
   std::vector<Tool> T = tools();
   vsx::Explorer ex(shmpath);
@@ -209,11 +290,11 @@ int main(int argc, char **argv) {
   ex.child_timeout_s = 60;
   std::map<std::string, std::map<std::string, std::string>> refs;  // per (tool, extra): all files written by nt=1 without the scheduler
   auto reference = [&](const Cfg &c) -> std::map<std::string, std::string> & {
-    std::string k = std::to_string(c.tool) + "|" + c.extra;
+    std::string k = std::to_string(c.tool) + "|" + c.extra + "|" + c.trj;
     auto it = refs.find(k);
     if (it != refs.end()) return it->second;
     remove_outputs();
-    ex.body = [&](vs_shared *, const std::vector<int> &) { run_tool(T[c.tool], 1, c.extra, false, "", {}, 0); };
+    ex.body = [&](vs_shared *, const std::vector<int> &) { run_tool(T[c.tool], 1, c.extra, false, "", {}, 0, false, c.trj); };
     ex.run({});
     refs[k] = slurp_outputs();
     remove_outputs();
@@ -243,10 +324,10 @@ int main(int argc, char **argv) {
       if (!ref.count(kv.first)) bad(mode + "-extra-output-file", kv.first + " is not written by the single-thread run");
     return v;
   };
-  auto parsecfg = [&](std::map<std::string, std::string> &m) { return Cfg{atoi(m["tool"].c_str()), atoi(m["nt"].c_str()), m["extra"], m["ul"] == "1"}; };
-  auto cfgstr = [&](const Cfg &c) { return "tool=" + std::to_string(c.tool) + ";nt=" + std::to_string(c.nt) + ";extra=" + c.extra + (c.ul ? ";ul=1" : ""); };
+  auto parsecfg = [&](std::map<std::string, std::string> &m) { return Cfg{atoi(m["tool"].c_str()), atoi(m["nt"].c_str()), m["extra"], m["ul"] == "1", m.count("trj") ? m["trj"] : std::string("trj.dump")}; };
+  auto cfgstr = [&](const Cfg &c) { return "tool=" + std::to_string(c.tool) + ";nt=" + std::to_string(c.nt) + ";extra=" + c.extra + (c.ul ? ";ul=1" : "") + (c.trj != "trj.dump" ? ";trj=" + c.trj : ""); };
   auto runner = [&](const Cfg &c) {
-    ex.body = [&, c](vs_shared *, const std::vector<int> &ch) { run_tool(T[c.tool], c.nt, c.extra, true, shmpath, ch, horizon, c.ul); };
+    ex.body = [&, c](vs_shared *, const std::vector<int> &ch) { run_tool(T[c.tool], c.nt, c.extra, true, shmpath, ch, horizon, c.ul, c.trj); };
   };
   auto cleanup = [&]() { std::string cmd = "rm -rf '" + shmdir + "'"; if (shmdir != "." && system(cmd.c_str())) {} };
 
@@ -287,6 +368,16 @@ int main(int argc, char **argv) {
         cfgs.push_back({tool, nt, extra});
       }
   if (thorough) for (int tool = 0; tool < (int)T.size(); tool++) cfgs.push_back({tool, 4, ""});
+  // other trajectory readers: csg_stat on the same frames as gro, H5MD with a static box and H5MD with time-dependent box edges
+  // (every worker has its own topology; what a reader sets up once, e.g. a static box, must reach all of them)
+  for (std::string trj : {"trj.gro", "static.h5", "timedep.h5"})
+    for (int nt : {2, 3})
+      for (std::string extra : {"", "--first-frame 2 --nframes 2", "--block-length 2"}) {
+        if (!thorough && (nt == 3 || extra == "--first-frame 2 --nframes 2")) continue;
+        Cfg c{0, nt, extra, false};
+        c.trj = trj;
+        cfgs.push_back(c);
+      }
   // the instant after every mutex release as an additional scheduling point (bound 1): shows the consequences of an access moved
   // out of a critical section directly, without waiting for the race detector
   for (int tool = 0; tool < 2; tool++)
@@ -296,12 +387,12 @@ int main(int argc, char **argv) {
     }
   R.rule = "the unmodified csg_stat (ordered) and csg_orientcorr (unordered) executables under LD_PRELOAD=libvsched_preload.so on a generated 4-molecule, "
            "4-frame system (box volume differs per frame): all schedules with <= k preemptions (k=1 quick, 2 thorough; scheduling points at thread create/start/exit, "
-           "mutex acquire, join; for nt=2 also with the instant after every mutex release at k=1) for nt in {2,3,(4)} x frame selections; oracle: no deadlock/livelock/crash and output files byte-identical (ordered) / equal to 1e-9 "
+           "mutex acquire, join; for nt=2 also with the instant after every mutex release at k=1) for nt in {2,3,(4)} x frame selections, csg_stat also on the same frames as gro / H5MD (static box) / H5MD (time-dependent box) trajectories; oracle: no deadlock/livelock/crash and output files byte-identical (ordered) / equal to 1e-9 "
            "relative (unordered) to the single-thread run. distinct_nontrivial = distinct (config, schedule trace) pairs";
   long long unit = 0, schedules = 0, points = 0;
   // Iterated bounds: pass 0 explores EVERY configuration at bound 1; pass 1 re-explores those with a bound >= 2 at their full
   // bound, each within an equal share of the remaining time.
-  auto bound_for = [&](const Cfg &c) { return thorough && !c.ul ? (c.nt <= 2 ? 2 : 1) : 1; };
+  auto bound_for = [&](const Cfg &c) { return thorough && !c.ul && c.trj == "trj.dump" ? (c.nt <= 2 ? 2 : 1) : 1; };
   long long completed[3] = {0, 0, 0}, capped_above_1 = 0;
   for (int pass = 0; pass < 2; pass++) {
     std::vector<const Cfg *> todo;
